@@ -1,0 +1,28 @@
+//go:build verif
+// +build verif
+
+package gocql
+
+import "sync/atomic"
+
+// Verification trace points (build tag "verif" only; nothing here is compiled into normal builds).
+//
+// vEvent(kind, a, b) is called at the trace points inserted (add-only) in conn.go and
+// connectionpool.go. A harness installs a hook with VerifSetEventHook; the hook runs on the calling
+// goroutine, so it can record the event and/or block the goroutine there until the harness's
+// scheduler lets it continue (schedule perturbation). Kind numbers are allocated per property:
+// 1..999 conn.go (C01/C06/C07/C14), 1700..1799 connectionpool.go (C17). A hook must ignore kinds it
+// does not know.
+
+type verifEventHookBox struct{ f func(kind, a, b int) }
+
+var verifEventHook atomic.Value // of verifEventHookBox
+
+func vEvent(kind, a, b int) {
+	if h, _ := verifEventHook.Load().(verifEventHookBox); h.f != nil {
+		h.f(kind, a, b)
+	}
+}
+
+// VerifSetEventHook installs (or, with nil, removes) the process-wide trace hook.
+func VerifSetEventHook(f func(kind, a, b int)) { verifEventHook.Store(verifEventHookBox{f}) }
